@@ -14,8 +14,8 @@ use std::sync::Arc;
 
 pub const META: Meta = Meta {
     level: "model_checking",
-    rule: "BFS over histories of {connect, disconnect, Subscribe RPC, Unsubscribe RPC (3 gossipsub v1.1 peers), publish to T, heartbeat; with scoring active also: application score of a peer below / back above publish_threshold} against one real gossipsub Behaviour that is not subscribed to T (flood_publish off, mesh_n = 2, so the fanout holds at most 2 of the 3 peers and a replacement is observable). Non-trivial = distinct reached states with a non-empty fanout set.",
-    explanation: "Around every publish the topic's fanout set is read (hook) before and after; every peer that was in the fanout before and is still eligible (connected and subscribed to T as the node was told) must still be in it afterwards. Every transition is one execution of the real code with owned entropy; states deduplicated on model + fanout/mesh/peer projections; un-deduplicated companion search; thorough repeats under 4 entropy seeds (different peer samples).",
+    rule: "BFS over histories of {connect, disconnect, Subscribe RPC, Unsubscribe RPC (3 gossipsub v1.1 peers), publish to T, heartbeat, inbound GRAFT and PRUNE for T; with scoring active also: application score of a peer below / back above publish_threshold} against one real gossipsub Behaviour that is not subscribed to T (flood_publish off, mesh_n = 2, so the fanout holds at most 2 of the 3 peers and a replacement is observable). Non-trivial = distinct reached states with a non-empty fanout set.",
+    explanation: "Around every publish and around every other non-heartbeat step the topic's fanout set is read (hook) before and after; every peer that was in the fanout before and is still eligible (connected, subscribed to T as the node was told, score not below publish_threshold) must still be in it afterwards. Every transition is one execution of the real code with owned entropy; states deduplicated on model + fanout/mesh/peer projections; un-deduplicated companion search; thorough repeats under 4 entropy seeds (different peer samples).",
     assumptions: &["3 peers / 1 topic / depth-bounded histories (small-scope)", "eligibility = connected, subscribed and score not below publish_threshold (scoring configured in half of the configurations; no explicit peers, all peers gossipsub)", "message-cache contents are not part of the canonical key (they do not influence fanout selection)"],
 };
 
@@ -29,6 +29,9 @@ pub enum Act {
     Unsub(u8),
     Publish,
     Heartbeat,
+    /// inbound GRAFT / PRUNE (1 s backoff) for the topic (which the node is not subscribed to)
+    Graft(u8),
+    Prune(u8),
     /// application score so low that the peer falls below publish_threshold (true) / back to 0
     Score(u8, bool),
 }
@@ -91,6 +94,8 @@ impl Sys for FanSys {
             } else {
                 v.push(Act::Disconnect(p));
                 v.push(if self.subs[p as usize] { Act::Unsub(p) } else { Act::Sub(p) });
+                v.push(Act::Prune(p));
+                v.push(Act::Graft(p));
             }
         }
         if self.scoring {
@@ -105,7 +110,20 @@ impl Sys for FanSys {
         v
     }
     fn step(&mut self, a: &Act) -> Result<(), String> {
+        let fan_before_step = self.fanout();
         match *a {
+            Act::Graft(p) => {
+                self.node.inject(pid(p), &node::enc_grafts(&[T])).expect("well-formed rpc");
+                // a GRAFT implies a subscription (the behaviour records it)
+                self.subs[p as usize] = true;
+                self.marks.push("graft-in".into());
+            }
+            Act::Prune(p) => {
+                if fan_before_step.contains(&p) {
+                    self.marks.push("prune-in.from-fanout-peer".into());
+                }
+                self.node.inject(pid(p), &node::enc_prunes(&[T], Some(1))).expect("well-formed rpc");
+            }
             Act::Connect(p) => {
                 self.node.connect(pid(p), p == 0, Kind::G11);
                 self.connected[p as usize] = true;
@@ -178,6 +196,28 @@ impl Sys for FanSys {
                 }
             }
         }
+        // Between heartbeats the fanout set may only lose peers that stopped being eligible
+        // (statement: "fanout peers selected earlier that are still eligible stay in the topic's
+        // fanout set ... until the heartbeat maintains the set"); judged on every step that is
+        // neither a publish (judged above, with its own signature) nor a heartbeat.
+        if !matches!(a, Act::Publish | Act::Heartbeat) {
+            let after = self.fanout();
+            let eligible: BTreeSet<u8> = (0..3u8).filter(|p| self.connected[*p as usize] && self.subs[*p as usize] && !self.low[*p as usize]).collect();
+            let lost: Vec<u8> = fan_before_step.intersection(&eligible).filter(|p| !after.contains(p)).copied().collect();
+            if !lost.is_empty() {
+                let kind = match a {
+                    Act::Connect(_) => "Connect",
+                    Act::Disconnect(_) => "Disconnect",
+                    Act::Sub(_) => "SubscribeRpc",
+                    Act::Unsub(_) => "UnsubscribeRpc",
+                    Act::Graft(_) => "GraftRpc",
+                    Act::Prune(_) => "PruneRpc",
+                    Act::Score(..) => "Score",
+                    _ => "other",
+                };
+                return Err(format!("C35 eligible-fanout-peer-dropped via={kind} :: fanout {:?} -> {:?}, eligible {:?}, action {:?}", fan_before_step, after, eligible, a));
+            }
+        }
         // drain what was queued (subscriptions, gossip) so that queues never fill up
         for p in 0..3u8 {
             if self.connected[p as usize] {
@@ -243,7 +283,7 @@ pub fn run(ctx: &Ctx) -> Outcome {
         }
         out
     });
-    for g in ["publish.ok", "publish.with-existing-fanout", "publish.fanout-grew-or-changed", "publish.with-low-score-fanout-peer", "publish.fanout-above-mesh_n"] {
+    for g in ["publish.ok", "publish.with-existing-fanout", "publish.fanout-grew-or-changed", "publish.with-low-score-fanout-peer", "publish.fanout-above-mesh_n", "prune-in.from-fanout-peer", "graft-in"] {
         if out.get(g) == 0 {
             out.machinery(format!("vacuity guard: counter '{g}' is zero"));
         }
